@@ -100,6 +100,34 @@ def check(res, tier):
     floats = float_cases(rng, 300 if tier == "quick" else 20000)
     for s in floats:
         add("float", s, "Die Kommazahl k ist %s.\n" % s)
+    # the same literals in other syntactic positions than an initialiser: argument of a function call (the tokens of an
+    # argument are parsed by a parser of their own), parenthesised argument, list element, operand, returned value
+    FN = {"int": "Zahl", "float": "Kommazahl", "str": "Text", "chr": "Buchstabe"}
+    ART = {"int": "eine Zahl", "float": "eine Kommazahl", "str": "einen Text", "chr": "einen Buchstaben"}
+    LST = {"int": "Zahlen Liste", "float": "Kommazahlen Liste", "str": "Text Liste", "chr": "Buchstaben Liste"}
+
+    def contexts(kind, lit):
+        t = FN[kind]
+        fn = ('Die Funktion nimm mit dem Parameter p vom Typ %s, gibt nichts zurück, macht:\n\tDer Wahrheitswert lokal ist wahr.\nUnd kann so benutzt werden:\n\t"nimm <p>"\n\n' % t)
+        yield "argument", fn + "nimm %s.\n" % lit
+        yield "grouped-argument", fn + "nimm (%s).\n" % lit
+        yield "list-element", "Die %s l ist eine Liste, die aus %s besteht.\n" % (LST[kind], lit)
+        yield "returned", 'Die Funktion liefere gibt %s zurück, macht:\n\tGib %s zurück.\nUnd kann so benutzt werden:\n\t"liefere"\n' % (ART[kind], lit)
+        if kind in ("int", "float"):
+            yield "operand", "Die Kommazahl z ist %s durch 2.\n" % lit
+        yield "condition", "Wenn %s gleich %s ist, dann:\n\tDer Wahrheitswert lokal ist wahr.\n" % (lit, lit)
+    ctx_sample = []
+    for i, ((kind, lit), rq) in enumerate(zip(list(meta), list(reqs))):
+        inner = lit[1:-1]
+        if kind in ("str", "chr") and (lit[0] in inner.replace("\\\\", "").replace("\\" + lit[0], "") or "\n" in inner):
+            continue        # a raw delimiter inside: more than one literal; only the initialiser form is judged
+        if kind == "int" or (kind in ("str", "chr") and i % (37 if tier == "quick" else 5) == 0) or (kind == "float" and i % (11 if tier == "quick" else 3) == 0):
+            ctx_sample.append((kind, lit))
+    nctx = 0
+    for kind, lit in ctx_sample:
+        for cname, prog in contexts(kind, lit):
+            add(kind, lit, prog)
+            nctx += 1
     outs = corr.parse_many(harness, reqs)
     ans = corr.run_lines(model, mlines)
     res.evaluations = len(reqs)
@@ -223,7 +251,8 @@ def check(res, tier):
                       "float_nearest_ok": okf, "disagreements": mism, **stats})
     res.exhaustive = True
     res.rule = ("all text literals with content of <=%d symbols and all character literals of <=3 symbols over %r (exhaustive); integers "
-                "around every power of two and ten, leading zeros, out-of-range; random/halfway decimal literals judged by the decidable "
+                "around every power of two and ten, leading zeros, out-of-range; the integer literals and a sample of the others also as call argument, grouped argument, list "
+                "element, returned value, operand and condition; random/halfway decimal literals judged by the decidable "
                 "nearest-even specification; one compiled program printing a sample. distinct by literal text") % (n, ALPHA)
     for i in (7, nex - 5, nex + 3):
         res.sample({"literal": meta[i][1], "implementation": ((outs[i].get("extra") or {}).get("lits") or []), "faulty": outs[i].get("faulty"), "model": ans[i]})
